@@ -185,7 +185,14 @@ def judgeTrace (p : Par) (tr : Trace) : Verdict :=
     | some i => .diff s!"trace-infeasible at event {i}: {(tr[i]?).map showEv}"
     | none =>
       match ownFail (mkSpec p) tr with
-      | some i => .diff s!"skeleton-conformance: event {i} is not permitted by the ownership contracts: {(tr[i]?).map showEv}"
+      | some i =>
+        -- an access without permission is reported with its variable; it is a departure from the skeleton's discipline,
+        -- not by itself a race (the access may be ordered by something the skeleton does not name): the race verdict
+        -- above is what decides `viol`
+        match tr[i]? with
+        | some (t, .rd x) => .diff s!"skeleton-conformance: unowned-access-{className (clsOf x)}: thread {t} reads without holding a share (event {i})"
+        | some (t, .wr x) => .diff s!"skeleton-conformance: unowned-access-{className (clsOf x)}: thread {t} writes without holding every share (event {i})"
+        | e => .diff s!"skeleton-conformance: event {i} is not permitted by the ownership contracts: {e.map showEv}"
       | none =>
         let has (f : Tid × Ev → Bool) (tag : String) : List String := if tr.any f then [tag] else []
         .ok (["traced", "src" ++ toString p.src]
